@@ -7,7 +7,7 @@ from .. import partmon as PM
 from ..driver import drive, result_of
 
 PROP = "C02"
-RULE = ("(a) partition-only histories: class x K in {2..8, 10, 16} x dimension 1..4 x hostile box (adjacent floats, denormal widths, "
+RULE = ("(a) partition-only histories: class x K in {2..8, 10, 16, 32, 64} x dimension 1..4 x hostile box (adjacent floats, denormal widths, "
         "+-1e300, 1e16+ulps, mixed scales) x random interleaving of deepen()/make_children(leaf) x injected outcomes "
         "of np.random.uniform (end points and their float neighbours); every split checked bit-exactly, also through "
         "an icontract post-condition on the real make_children; leaves of the final tree tile the root; (b) every "
@@ -20,8 +20,9 @@ ASSUMPTIONS = [
     "a split of a zero-width dimension yields children identical to the parent: accepted (empty interiors)",
     "np.random.uniform may return either end point (NumPy documents [low, high) but rounding can give high)",
 ]
-FLOOR = {"splits_checked": {"quick": 30000, "thorough": 600000}, "leaf_tilings_checked": {"quick": 500, "thorough": 10000},
-         "contract_evaluations": {"quick": 5000, "thorough": 100000}}
+FLOOR = {"splits_checked": {"quick": 30000, "thorough": 240000},
+         "leaf_tilings_checked": {"quick": 500, "thorough": 4000},
+         "contract_evaluations": {"quick": 5000, "thorough": 40000}}
 WALL = {"quick": 1200, "thorough": 4 * 3600}
 
 
@@ -46,8 +47,16 @@ def gen_cases(rng, tier, count=None):
         if dim >= 2 and rng.random() < 0.12:
             c["box"] = [list(box[0]) for _ in box]
             c["alias_box"] = True
-        if rng.random() < 0.15:
-            c.update(chain=str(rng.choice(["last", "random"])), p_deepen=0.0, steps=int(rng.integers(45, 90)))
+        big = name in ("K32", "K64", "RK32", "RK64")
+        if rng.random() < 0.15 or big:
+            c.update(chain=str(rng.choice(["last", "random", "origin"])), p_deepen=0.0,
+                     steps=int(rng.integers(45, 90)), max_nodes=8000)
+            if big or rng.random() < 0.3:
+                # a box with 0 in its interior, followed towards the origin (cells straddling zero)
+                c["box"] = [[-float(rng.choice([1.0, 2.5, 0.3, 10.0])), float(rng.choice([1.0, 7.5, 0.1, 1.0]))]
+                            for _ in box]
+                c["chain"] = "origin"
+                c.pop("alias_box", None)
         if name.startswith("R") and rng.random() < 0.6:
             c["inject"] = {"uniform_p": float(rng.choice([0.2, 0.5, 1.0])), "seed": int(rng.integers(1 << 30))}
         out.append(c)
